@@ -547,6 +547,47 @@ def check_memo_functions(ctx, functions, rule='A2p'):
                            f'of the key of `{cont}`', 'present' if not lost else
                            f'{lost} is not part of the key `{key}`: two iterations with otherwise equal key parts share '
                            f'one entry although they compute different things')
+                # accumulate-and-memoise loops: the stored value continues a value carried round the loop (`C[k] = g =
+                # g.step(..)`) - it is determined by everything applied so far.  When the loop keeps a record of what
+                # was applied (`R[i] = v` before the key is formed), the key is formed from that record: the requested
+                # input alone does not say what has been applied in which order
+                tnames = [t_.id for t_ in s.ast.targets if isinstance(t_, ast.Name)]
+                carried_self = [nm for nm in tnames if any(isinstance(x, ast.Name) and x.id == nm
+                                                           for x in ast.walk(s.ast.value))]
+                loops_around = [l_ for l_ in ast.walk(fn.node) if isinstance(l_, (ast.For, ast.While)) and
+                                any(x is s.ast for st_ in l_.body for x in ast.walk(st_))]
+                if carried_self and loops_around:
+                    lp_ = min(loops_around, key=lambda l_: sum(1 for _ in ast.walk(l_)))
+                    records = set()
+                    for st_ in ast.walk(lp_):
+                        if isinstance(st_, ast.Assign) and isinstance(st_.targets[0], ast.Subscript) and \
+                                isinstance(st_.targets[0].value, ast.Name) and st_.lineno < s.lineno and \
+                                norm(st_.targets[0].value) != cont:
+                            records.add(st_.targets[0].value.id)
+                    if records:
+                        knames_all = set()
+                        work_k = [t.slice]
+                        seen_k = set()
+                        while work_k:
+                            e = work_k.pop()
+                            for x in ast.walk(e):
+                                if isinstance(x, ast.Name) and x.id not in seen_k:
+                                    seen_k.add(x.id)
+                                    knames_all.add(x.id)
+                                    for d in (rd or build_rd(fn)).defs_of(x.id, s):
+                                        if d.kind == 'stmt' and isinstance(d.ast, ast.Assign) and \
+                                                d.lineno >= lp_.lineno:
+                                            work_k.append(d.ast.value)
+                        okr = bool(records & knames_all)
+                        n += 1
+                        ctx.touch(fn)
+                        ctx.ob(rule, fkey(fn, rule, f'{cont}[{key}]:key-from-decision-record'), okr,
+                               f'{fn.module.relpath}:{s.lineno}',
+                               f'`{carried_self[0]}` is carried round the loop and continued by the memoised step; the '
+                               f'loop records what it applied in `{"/".join(sorted(records))}`: the key is formed from '
+                               f'that record', f'key <- {sorted(knames_all)}' if okr else
+                               f'the key `{key}` (<- {sorted(knames_all)}) does not read `{"/".join(sorted(records))}`: '
+                               f'it identifies the request, not what has been applied so far')
                 # a key the function itself tests against None is a sentinel on some paths ("no index known"): all
                 # calls on which it is None would share one entry, whatever they computed
                 knames = [x.id for x in ast.walk(t.slice) if isinstance(x, ast.Name)]
